@@ -181,6 +181,12 @@ def run(ctx):
                             'the later commit erases the earlier one (an acknowledged INSERT loses its rows, a DELETE is undone)')
 
     commits_into_dropped_tables(ctx, prog)
+    R7 = 'C10-R7'
+    ctx.rule(R7, '= C09-R1 (after seed C10-e): a writer that waits for the table lock takes its snapshot after it got the lock - every path from '
+                 'a lock acquisition to a use of the pinned snapshot passes VersionManager::pin; a DELETE that pinned first validates its victims '
+                 'against the state from before the lock holder committed and is acknowledged for rows it does not remove')
+    from rules.c09 import lock_then_pin
+    ctx.floor(R7, lock_then_pin(ctx, prog, R7), 2, 'functions that both pin a version and take a table lock')
 
 
 def commits_into_dropped_tables(ctx, prog):
